@@ -785,3 +785,67 @@ package avro
 //@   ensures [C07] err == nil ==> n >= 4 && uint64(crc32of(res)) == uint64(compressed[n-1]) | uint64(compressed[n-2]) << 8 | uint64(compressed[n-3]) << 16 | uint64(compressed[n-4]) << 24
 //@   ensures [C07,C06] bhframe_unowned() && (cap(s.buf) == 0 || cowned(s.buf))
 //@   modifies s.buf, BH
+
+// ================================================================ array.go
+// Avro: arrays are encoded as a series of blocks: a long count, then that many items; a negative count means
+// abs(count) items preceded by a long byte size of the block; a count of zero ends the array.
+
+//@ spec isz(rc ptr) int = rtypesz(data(rc.itemType))
+// extent of an array starting at b[i]: blk; extent of k items starting at b[j]: items (recursive ghosts, unfolded on demand)
+//@ ghost blk(c ptr, b bytes, i int) int
+//@ ghost items(c ptr, b bytes, j int, k int64) int
+//@ axiom blk_unfold(c ptr, b bytes, i int): (vval(b, i) == 0 ==> blk(c, b, i) == vend(b, i)) \
+//@      && (vval(b, i) > 0 ==> blk(c, b, i) == blk(c, b, items(c, b, vend(b, i), vval(b, i)))) \
+//@      && (vval(b, i) < 0 ==> blk(c, b, i) == blk(c, b, items(c, b, vend(b, vend(b, i)), -vval(b, i))))
+//@ axiom items_unfold(c ptr, b bytes, j int, k int64): (k <= 0 ==> items(c, b, j, k) == j) && (k > 0 ==> items(c, b, j, k) == items(c, b, cend(c.itemCodec, b, j), k - 1))
+
+//@ type *arrayCodec : dsz = 24 ; wfc = this != nil && this.itemCodec != nil && wfc(this.itemCodec) && this.itemType != nil && data(this.itemType) != nil && dsz(this.itemCodec) == isz(this) && 0 <= isz(this) && isz(this) < 1<<22 ; \
+//@      cend(b, i) = blk(this, b, i) ; wfval(p) = rdable(p, 24) && 0 <= memint(uintptr(p)+8, 8) && memint(uintptr(p)+8, 8) < 1<<40 \
+//@        && (forall k int :: 0 <= k && k < memint(uintptr(p)+8, 8) ==> wfval(this.itemCodec, mem64(p) + uint64(k * isz(this))))
+
+// slice header at p: Data, Len, Cap words
+//@ spec hD(p ptr) uint64 = mem64(p)
+//@ spec hL(p ptr) int = int(memint(uintptr(p) + 8, 8))
+//@ spec hC(p ptr) int = int(memint(uintptr(p) + 16, 8))
+//@ spec hdrOK(p ptr, sz int) bool = 0 <= hL(p) && hL(p) <= hC(p) && hC(p) <= 2147483647 && (hC(p) > 0 ==> hD(p) != 0 && rawalloc(ptr(hD(p)), hC(p) * sz)) \
+//@      && zeroed(uintptr(hD(p)) + uintptr(hL(p) * sz), (hC(p) - hL(p)) * sz)
+
+//@ func (*arrayCodec).resizeSlice
+//@   let sz := isz(rc)
+//@   requires rc != nil && rc.itemType != nil && data(rc.itemType) != nil && 0 <= sz && sz < 1<<22 && 0 <= in.Len && in.Len <= in.Cap && in.Cap <= 2147483647 && 0 <= len && in.Len + len <= 2147483647 \
+//@        && (in.Cap > 0 ==> in.Data != nil && rawalloc(in.Data, in.Cap * sz)) && zeroed(uintptr(in.Data) + uintptr(in.Len * sz), (in.Cap - in.Len) * sz)
+//@   ensures [C05,C03,C06] res.Len == in.Len && in.Len + len <= res.Cap && res.Cap <= 2147483647
+//@   ensures [C05,C11] res.Cap > 0 ==> res.Data != nil && rawalloc(res.Data, res.Cap * sz)
+//@   ensures [C05,C10] zeroed(uintptr(res.Data) + uintptr(res.Len * sz), (res.Cap - res.Len) * sz)
+//@   ensures [C05] res == in || rawfresh(res.Data, res.Cap * sz)
+//@   modifies M[0, 0]
+//@   uses umul_mono(in.Len, in.Len + len, sz)
+//@   uses umul_mono(in.Len, in.Cap, sz)
+//@   uses umul_add(in.Len, len, sz)
+//@   uses umul_mono(len, in.Len + len, sz)
+
+//@ func (*arrayCodec).Read
+//@   implements Codec.Read
+//@   let i0 := r.i, b0 := r.buf, sd0 := r.rb.sData, rb0 := r.rb, sz := isz(rc)
+//@   requires wfRBS(r) && wfc(asiface(rc)) && p != nil && rawalloc(p, 24) && zeroed(p, 24)
+//@   ensures [C04] err == nil ==> r.i == blk(rc, b0, i0)
+//@   modifies r.i, M[p, 24], r.rb.sData, r.rb.types, type resourceType, BH[r.rb.sData]
+//     outer loop: one iteration per block
+//@   loop 1 invariant wfRBS(r) && r.buf == b0 && sameobj(b0) && i0 <= r.i && r.rb == rb0 && bhframe(sd0) && (base(r.rb.sData) == base(sd0) || newobj(r.rb.sData))
+//@   loop 1 invariant rawalloc(p, 24) && memframe(p, 24) && hdrOK(p, sz) && (hC(p) > 0 ==> rawfresh(ptr(hD(p)), hC(p) * sz))
+//@   loop 1 invariant [C04] blk(rc, b0, i0) == blk(rc, b0, r.i)
+//@   loop 1 uses blk_unfold(rc, b0, r.i)
+//@   loop 1 uses umul_exactl(0, sz)
+//@   loop 1 decreases len(b0) - r.i
+//     inner loop: i of count items of this block have been decoded
+//@   loop 2 invariant wfRBS(r) && r.buf == b0 && sameobj(b0) && i0 <= r.i && r.rb == rb0 && bhframe(sd0) && (base(r.rb.sData) == base(sd0) || newobj(r.rb.sData))
+//@   loop 2 invariant rawalloc(p, 24) && memframe(p, 24) && hdrOK(p, sz) && (hC(p) > 0 ==> rawfresh(ptr(hD(p)), hC(p) * sz))
+//@   loop 2 invariant 0 <= i && i <= count && count <= 2147483647 && hL(p) + int(count - i) <= hC(p) && itemSize == uintptr(sz) && len(b0) - r.i < loopdec(1)
+//@   loop 2 invariant [C04] blk(rc, b0, i0) == blk(rc, b0, items(rc, b0, r.i, count - i))
+//@   loop 2 uses items_unfold(rc, b0, r.i, count - i)
+//@   loop 2 uses umul_add(hL(p), 1, sz)
+//@   loop 2 uses umul_mono(hL(p) + 1, hC(p), sz)
+//@   loop 2 uses umul_mono(hL(p), hL(p) + 1, sz)
+//@   loop 2 uses umul_exact(1, sz)
+//@   loop 2 decreases count - i
+//@   loop 2 progress r.i
